@@ -19,7 +19,7 @@ from ..model import p2bin as M
 
 ID = 'C05'
 LEVEL = 'exploration'
-RULE = ('case = one p2bin execution over 1..3 pfile-written code files (1..9 selected records laid out as shuffled tiles with gaps / exact adjacency / '
+RULE = ('case = one p2bin execution over 1..3 pfile-written code files (1..11 selected records laid out as shuffled tiles with gaps / exact adjacency / '
         'overlaps / nesting, plus records of other segments and families; granularity 1/2/4; record sizes around 1, 4096 and 65535 bytes; (offset) suffixes) '
         'under a random option set (-r explicit/$/0x per side, -l, -m, -S, -e, -s, -f, -segment, -q, P2BINCMD, single-name form, four number notations); '
         'non-trivial = the model defines the image and at least one selected record lies in the window; '
